@@ -41,3 +41,14 @@ package verifier
 //@ ensures[C05.closed] v.revocationCodeSigningValidator != nil && result.Error == nil ==> vcErr(v.revocationCodeSigningValidator, revOpts(outcome)) == nil && forall(j, 0, len(chainOf(outcome)), okRes(vcRes(v.revocationCodeSigningValidator, revOpts(outcome))[j]))
 //@ ensures[C05.closed-deprecated] v.revocationCodeSigningValidator == nil && v.revocationClient != nil && result.Error == nil ==> rvErr(v.revocationClient, chainOf(outcome), revTime(outcome)) == nil && forall(j, 0, len(chainOf(outcome)), okRes(rvRes(v.revocationClient, chainOf(outcome), revTime(outcome))[j]))
 //@ ensures fresh(result)
+
+//@ pure func hasStr(s []string, x string) bool = exists(i, 0, len(s), s[i] == x)
+//@ pure func x509Identity(id string, m map[string]string) bool = cutFound(id, ":") && cutBefore(id, ":") == "x509.subject" && cutAfter(id, ":") != "" && isParseOf(m, cutAfter(id, ":"))
+
+//@ func verifyX509TrustedIdentities
+//@ props C04
+//@ requires len(certs) >= 1 && certs[0] != nil
+//@ ensures[C04.wildcard] hasStr(trustedIdentities, "*") ==> result == nil
+//@ ensures-local[C04.leaf-subset] result == nil && !hasStr(trustedIdentities, "*") ==> subsetDN(trustedX509Identity, leafCertDN) && isParseOf(leafCertDN, subjectString(certs[0])) && exists(q, 0, len(trustedIdentities), x509Identity(trustedIdentities[q], trustedX509Identity))
+//@ loop 1 invariant newsince(trustedX509Identities)
+//@ loop 1 invariant forall(t, 0, len(trustedX509Identities), exists(q, 0, rangeindex+1, x509Identity(trustedIdentities[q], trustedX509Identities[t])))
